@@ -47,7 +47,7 @@ Definition err_model_codes (prefix : nat) : list Z :=
 
 Definition check_c09 (c : c09case) : list nat :=
   match c with
-  | C09Step cc => (if agrees cc then [] else [1%nat]) ++ reasons_in [3; 5; 6; 7; 8; 10; 12]%nat cc ++
+  | C09Step cc => (if agrees cc then [] else [1%nat]) ++ reasons_in [3; 5; 6; 7; 8; 10; 12; 13]%nat cc ++
                   (* reason 11: the scenario could not be run to its end: a goroutine waits for a lock for ever; every call behind it hangs *)
                   (match cc with CClientWedged _ _ _ => [11%nat] | _ => [] end)
   | C09Storm n pending succ => (if pending =? 0 then [] else [6%nat]) ++ (if succ =? 0 then [] else [5%nat])
